@@ -119,7 +119,7 @@ func (ce *cenv) lookupLocal(name string) (cvar, bool) {
 			if _, live := ce.st.cells[c]; !live {
 				continue
 			}
-			if best == nil || c.Pos > best.Pos {
+			if best == nil || c.Pos > best.Pos || (c.Pos == best.Pos && c.ID > best.ID) {
 				best = c
 			}
 		}
@@ -192,10 +192,7 @@ func (ce *cenv) typed(t types.Type, tm *Term) {
 	if x.noTypeFacts {
 		return
 	}
-	var al *Term
-	if x.factSink == nil {
-		al = ce.st.H("$alloc", sortInt)
-	}
+	al := ce.st.H("$alloc", sortInt)
 	f := x.env.te.typeFacts(t, tm, al, 0)
 	if f == tTrue {
 		return
@@ -648,7 +645,7 @@ func (ce *cenv) addrOf(e *CExpr) *PtrVal {
 			for f := ce.fr; f != nil && best == nil; f = f.parent {
 				for _, c := range f.cells {
 					if c.Name == e.Name {
-						if _, live := ce.st.cells[c]; live && (best == nil || c.Pos > best.Pos) {
+						if _, live := ce.st.cells[c]; live && (best == nil || c.Pos > best.Pos || (c.Pos == best.Pos && c.ID > best.ID)) {
 							best = c
 						}
 					}
